@@ -26,7 +26,7 @@ SCOPE = ("ENUMERATED, not proved for all inputs: every cqlengine column class th
          "type. DateTime: readings on 7 (14) dates from 0001-01-01 to 9999-12-31 (incl. 1969-12-31, 1970-01-01, a summer and an "
          "autumn-transition date) x 5 (6) times of day x 9 (15) microsecond values (0, 1, 999, 1000, 1999, 999000, 999500, "
          "999999, ...) x {naive, 4 (8) fixed offsets incl. negative and +05:30, 2 (6) zones whose offset at the reading differs "
-         "from their offset on 1970-01-01} and plain dates; plus 18 (56) SEQUENCES of 2 (3) conversions whose datetimes share ONE "
+         "from their offset on 1970-01-01} and plain dates; plus 16 (48) SEQUENCES of 2 (2 - 3) conversions whose datetimes share ONE "
          "tzinfo object with different offsets at the readings (winter / summer, both passes of the repeated hour, a zone that "
          "changed its standard offset), converted one after the other by the same column; the zone is a tzinfo that answers with the offset in force at the "
          "reading and with the 1970 offset for 1970-01-01 - real tz databases, readings between the enumerated ones, arbitrary "
@@ -149,7 +149,7 @@ def run(ctx):
     if ctx.quick:
         runs = [("all column types, small alphabets", C.FAMILIES, False)]
     else:
-        runs = [("scalar column types, large alphabets", ["scalar"], True),
+        runs = [("scalar column types, large alphabets; sequences of conversions with one zone object", ["scalar", "calls"], True),
                 ("lists, sets, tuples, user defined types, nested shapes", ["list", "set", "tuple", "udt", "nest"], True),
                 ("maps", ["map"], True)]
     try:
